@@ -444,27 +444,49 @@ def lathe_rules(rep, prog):
     b = prog.inlined(prog.body(LATHE + "Lathe::build"), depth=2, pred=lambda cb: cb.path.startswith(LATHE))
     sl = T.Slicer(b)
     live = set(b.reachable(0))
-    pf = [(bi, t) for bi, t in b.calls(lambda c: facts.callee_matches(c, "mesh::Builder::<A>::push_face")) if bi in live]
-    rep.floor("C15.L1.push_face", len(pf), 4, "push_face sites in Lathe::build (2 strip + 2 cap)")
     loops = loops_of(b, sl)
-
-    def atoms_for():
-        # every distinct loop item becomes a symbol; `secs`-like locals become symbols by debug name
-        at = []
-        for h, _src in loops:
-            at.append((lambda t, h=h: t[0] == "field" and t[1][0] == "downcast" and t[1][1][0] == "call" and t[1][1][3] == (b.path, h), "L%d" % h))
-        return at
-    atoms = atoms_for()
-
-    def polys(t):
-        return [P.poly(sl.operand(a), atoms) for a in t["args"][1:4]]
 
     def pdiff(a, c):
         return P.padd(a, {m: -v for m, v in c.items()})
-    tri = [(bi, polys(t)) for bi, t in pf]
-    # group: strip faces are inside two nested loops; cap faces inside one loop each
-    strip = [(bi, ps) for bi, ps in tri if sum(1 for h, _s in loops if in_loop(b, h, bi)) >= 2]
-    caps = [(bi, ps) for bi, ps in tri if sum(1 for h, _s in loops if in_loop(b, h, bi)) == 1]
+    # Face index triples, wherever they are written: the arguments of push_face(a, b, c), or the [a, b, c] arrays a closure of the family
+    # returns on their way into push_faces (singly, or several per item as in `flat_map(|i| [[p, s, q], [p, r, s]])`). Faces are grouped
+    # by where they are produced: the innermost loop around a push_face call, or the closure. A quad strip is a group of two triangles,
+    # a cap fan a group of one.
+    groups = {}
+
+    def add_face(gid, terms, where):
+        ps = [P.poly(T.strip(x, sites=True, refs=True), []) for x in terms]
+        groups.setdefault(gid, []).append((where, ps))
+    for bi, t in b.calls(lambda c: facts.callee_matches(c, "mesh::Builder::<A>::push_face")):
+        if bi not in live or "push_faces" in t["callee"]["path"]:
+            continue
+        inner = [h for h, _s in loops if in_loop(b, h, bi)]
+        inner.sort(key=lambda h: len(b.natural_loop(h)))
+        add_face(("loop", inner[0] if inner else None), [sl.operand(a_) for a_ in t["args"][1:4]], bi)
+    for cb_ in prog.family(b.path):
+        if cb_.kind != "Closure" and "{closure" not in cb_.path:
+            continue
+        csl = T.Slicer(cb_)
+        rt = T.strip(csl.local(0), sites=True, refs=True)
+
+        def triples(q):
+            if q[0] == "agg" and q[1] == "array" and len(q[2]) == 3 and all(not (x[0] == "agg") for x in q[2]):
+                return [q[2]]
+            if q[0] == "agg" and q[1] == "array" and q[2] and all(x[0] == "agg" and x[1] == "array" for x in q[2]):
+                out = []
+                for x in q[2]:
+                    out += triples(x)
+                return out
+            return []
+        tr_ = triples(rt)
+        # only integer index triples count (a closure building [x, y, z] coordinates does not)
+        if tr_ and "usize" in str(cb_.locals[0]):
+            for terms in tr_:
+                add_face(("closure", cb_.path), terms, None)
+    n_faces = sum(len(v) for v in groups.values())
+    rep.floor("C15.L1.push_face", n_faces, 4, "face index triples in Lathe::build (2 strip + 2 cap)")
+    strip = [(w, ps) for g, fs in groups.items() if len(fs) == 2 for w, ps in fs]
+    caps = [(w, ps) for g, fs in groups.items() if len(fs) == 1 for w, ps in fs]
     ok_strip = False
     if len(strip) == 2:
         (b1, f1), (b2, f2) = strip
@@ -495,6 +517,8 @@ def lathe_rules(rep, prog):
     # every iteration of the innermost strip loop emits BOTH triangles: a quad whose triangle is skipped on some
     # data-dependent condition (a "degenerate" test with an absolute tolerance, say) leaves a hole in small solids
     for bi, _ps in strip:
+        if bi is None:
+            continue            # produced by a closure's return value: every item yields both triangles by construction
         inner = [h for h, _s in loops if in_loop(b, h, bi)]
         inner.sort(key=lambda h: len(b.natural_loop(h)))
         if inner:
@@ -572,7 +596,23 @@ def profile_rules(rep, prog):
             if not T.contains(recv, lambda q: q[0] == "field" and q[2] == "Lathe.points"):
                 continue
             n += 1
-            bad = last in REORDER
+
+            def is_profile(q, depth=0):
+                """the profile sequence itself (or a view / iterator / copy of it) - not merely something computed from it, such as a
+                vector pre-sized by points.len()"""
+                q = T.strip(q, sites=True, refs=True)
+                if q[0] == "field" and q[2] == "Lathe.points":
+                    return True
+                if q[0] == "phi":
+                    return any(is_profile(x, depth + 1) for x in q[2]) if depth < 6 else False
+                if q[0] == "call" and q[2] and depth < 8:
+                    nm = q[1].split(" => ")[0].rsplit("::", 1)[-1]
+                    if nm in ("iter", "iter_mut", "into_iter", "deref", "deref_mut", "as_slice", "as_mut_slice", "index", "index_mut", "by_ref", "borrow",
+                              "borrow_mut", "as_ref", "as_mut", "to_vec", "clone", "cloned", "copied", "to_owned", "enumerate", "peekable", "skip", "take",
+                              "zip", "chain", "windows", "chunks") + REORDER:
+                        return is_profile(q[2][0], depth + 1)
+                return False
+            bad = last in REORDER and is_profile(recv)
             rep.inst("C15.L3", "Lathe::build uses the profile through `%s` at %s: %s" % (last, fb.where(bi, None), "REORDERS/EDITS" if bad else "order kept"), config=cfg)
             if bad:
                 rep.violate("C15.L3", "L3|%s" % last, fb.where(bi, None),
